@@ -62,10 +62,10 @@ def wfEvs : List Call → Bool
   | .startTest t :: .add _ t' _ :: .stopTest t'' :: rest => t == t' && t == t'' && wfEvs rest
   | _ => false
 
-/-- the inputs the forwarding clauses speak about: no stream pipeline in the graph, and a well-formed history
+/-- the inputs the forwarding clauses speak about: calls a caller may make (`Call.ok`), no stream pipeline in the graph, and a well-formed history
 when a `ThreadsafeForwardingResult` (which re-brackets every outcome) is in it -/
 def inScope (i : Input) : Bool :=
-  i.shape.noStream && (wfEvs (testEvs i.hist) || !i.shape.hasTfr)
+  i.hist.all Call.ok && i.shape.noStream && (wfEvs (testEvs i.hist) || !i.shape.hasTfr)
 
 def leafEvs (l : LeafTrace) : List Call := testEvs (l.log.map (·.call))
 
